@@ -46,7 +46,37 @@ def gen_T12():
     mx = [n for n in ast.walk(reply) if isinstance(n, ast.Assign) and isinstance(n.targets[0], ast.Name)
           and n.targets[0].id == 'maximumLength']
     need(len(mx) == 1 and ast.unparse(mx[0].value) == 'allowedLength * maximumMores', 'reply: maximumLength changed')
+    # the nick reserve is unconditional on private/to: `if self.prefixNick:` and nothing else
+    nick_ifs = [n for n in ast.walk(reply) if isinstance(n, ast.If) and any(x is a_nick for x in n.body)]
+    need(len(nick_ifs) == 1 and ast.unparse(nick_ifs[0].test) == 'self.prefixNick' and len(nick_ifs[0].body) == 1
+         and not nick_ifs[0].orelse, 'reply: condition of the nick-prefix reserve changed: '
+         + (ast.unparse(nick_ifs[0].test) if nick_ifs else '?'))
+    ur = ast.unparse(reply)
+    need('self.private = self.private or private' in ur and 'self.notice = self.notice or notice' in ur
+         and 'target = self._getTarget(to)' in ur
+         and 'replyArgs = dict(to=self.to, notice=self.notice, action=self.action, private=self.private, '
+             'prefixNick=self.prefixNick, stripCtcp=stripCtcp)' in ur, 'reply: keyword handling changed')
+    gts = [n for n in ast.walk(t) if isinstance(n, ast.FunctionDef) and n.name == '_getTarget']
+    need(len(gts) == 1, 'expected one _getTarget')
+    gt = ast.unparse(gts[0])
+    need('if to is not None:\n        self.to = self.to or to' in gt
+         and 'target = self.private and self.to or self.msg.args[0]' in gt, '_getTarget changed')
     mk = find_def(t, '_makeReply')
+    um = ast.unparse(mk)
+    for piece in ('target = ircutils.replyTo(msg)',
+                  'if to is not None and isPublic(to):\n        target = to',
+                  'if notice is None:\n        notice = conf.get(conf.supybot.reply.withNotice,',
+                  'if private is None:\n        private = conf.get(conf.supybot.reply.inPrivate,',
+                  'if private:\n        prefixNick = False\n        if to is None:\n            target = msg.nick\n'
+                  '        else:\n            target = to',
+                  'if to is None:\n        to = msg.nick',
+                  "if prefixNick and isPublic(target):\n        if not isPublic(to):\n            s = '%s: %s' % (to, s)",
+                  'if not isPublic(target):\n        if conf.supybot.reply.withNoticeWhenPrivate():\n            notice = True',
+                  'msgmaker = ircmsgs.privmsg\n    if notice:\n        msgmaker = ircmsgs.notice',
+                  'ret = msgmaker(target, s)'):
+        need(piece in um, '_makeReply changed: missing `%s`' % piece.split('\n')[0])
+    rt = ast.unparse(find_def(tree('src/ircutils.py'), 'replyTo'))
+    need('if msg.channel:\n        return msg.args[0]\n    else:\n        return msg.nick' in rt, 'ircutils.replyTo changed')
     empt = [x for x in _consts(mk, str) if 'empty message' in x]
     need(len(empt) == 1, '_makeReply: empty-message text changed')
     strips = [n for n in ast.walk(mk) if isinstance(n, ast.Call) and isinstance(n.func, ast.Attribute) and n.func.attr == 'strip']
